@@ -11,6 +11,7 @@ import (
 	"io"
 	"math/rand"
 	"net"
+	"net/http"
 	"sync"
 	"sync/atomic"
 	"time"
@@ -72,11 +73,57 @@ func childStress(b run.Batch, r *ev.Result, rng *rand.Rand) {
 			r.Inconc(err.Error())
 			return
 		}
+		// Polls for the recent reports of keys the server has never heard of
+		// (anybody can send them) while junk of report length keeps arriving:
+		// the poll's "equipment not found" path runs between the datagram
+		// handler's critical sections all the time. A poll that is not answered
+		// within 8 s stops the round; the lock probe then decides.
+		var stalled atomic.Bool
+		var pollsDone, junkDone atomic.Int64
+		polls := 120 + rng.Intn(60)
+		pollKeys := make([]string, polls)
+		for i := range pollKeys {
+			k := make([]byte, 32)
+			rng.Read(k)
+			pollKeys[i] = fmt.Sprintf("%x", k)
+		}
+		junk := make([][]byte, 64)
+		for i := range junk {
+			junk[i] = make([]byte, 80)
+			rng.Read(junk[i])
+		}
+		wg.Add(2)
+		go func() {
+			defer wg.Done()
+			hc := &http.Client{Timeout: 8 * time.Second, Transport: &http.Transport{DisableKeepAlives: true}}
+			for i := 0; i < polls && !stalled.Load(); i++ {
+				resp, err := hc.Get(fmt.Sprintf("http://127.0.0.1:%d/api/v1/recent-reports?publicKey=%s", w.HTTP, pollKeys[i]))
+				if err != nil {
+					if isTimeout(err) {
+						stalled.Store(true)
+					}
+					continue
+				}
+				io.Copy(io.Discard, resp.Body)
+				resp.Body.Close()
+				pollsDone.Add(1)
+			}
+		}()
+		go func() {
+			defer wg.Done()
+			for i := 0; pollsDone.Load() < int64(polls) && !stalled.Load() && i < 400000; i++ {
+				udp.Write(junk[i%len(junk)])
+				if i%64 == 63 {
+					time.Sleep(200 * time.Microsecond)
+				}
+				junkDone.Add(1)
+			}
+		}()
 		for g := 0; g < 2; g++ {
 			wg.Add(1)
 			go func(g int) {
 				defer wg.Done()
-				for i := g; i < len(dgs); i += 2 {
+				for i := g; i < len(dgs) && !stalled.Load(); i += 2 {
 					if i%3 == 0 {
 						w.S.VerifInject(dgs[i].b)
 					} else {
@@ -93,7 +140,7 @@ func childStress(b run.Batch, r *ev.Result, rng *rand.Rand) {
 			wg.Add(1)
 			go func(g int) {
 				defer wg.Done()
-				for i := g; i < len(hcases); i += 2 {
+				for i := g; i < len(hcases) && !stalled.Load(); i += 2 {
 					c := hcases[i]
 					pq := c.route
 					if c.query != "" {
@@ -110,7 +157,7 @@ func childStress(b run.Batch, r *ev.Result, rng *rand.Rand) {
 			wg.Add(1)
 			go func(g int) {
 				defer wg.Done()
-				for i := g; i < len(tcases); i += 2 {
+				for i := g; i < len(tcases) && !stalled.Load(); i += 2 {
 					c := tcases[i]
 					conn, err := w.dial(w.TCP)
 					if err != nil {
@@ -137,8 +184,33 @@ func childStress(b run.Batch, r *ev.Result, rng *rand.Rand) {
 				}
 			}(g)
 		}
-		wg.Wait()
+		// a wedged server never returns from an injected datagram: wait for the
+		// workers only as long as no poll has stalled
+		workersDone := make(chan struct{})
+		go func() { wg.Wait(); close(workersDone) }()
+	waitWorkers:
+		for {
+			select {
+			case <-workersDone:
+				break waitWorkers
+			case <-time.After(50 * time.Millisecond):
+				if stalled.Load() {
+					break waitWorkers
+				}
+			}
+		}
 		udp.Close()
+		r.Count("stress.unknown_key_polls_among_junk_datagrams", pollsDone.Load())
+		r.Count("stress.junk_datagrams_during_polls", junkDone.Load())
+		if stalled.Load() {
+			// unanswered poll: a held lock is a violation (decided by the lock probe inside live), anything else is not judged
+			drv.GateRotation(true)
+			drv.GateImpact(true)
+			if w.live(fmt.Sprintf("stress round %d: a recent-reports poll for an unknown key was not answered within 8 s while junk datagrams arrived", round)) {
+				r.Inconc("a recent-reports poll timed out during the stress round although the server is live afterwards (machine overloaded)")
+			}
+			return
+		}
 		n := int(ops.Load())
 		r.Eval(n)
 		r.Count("inputs.datagram", int64(len(dgs)))
